@@ -188,6 +188,61 @@ func allRegs() []regEntry {
 	return out
 }
 
+// unrecoveryMatcher reads node/state_machine.go isUnrecoveryError: which string predicate it applies to
+// err.Error() and with which literal. kind: prefix | contains | containsfold | unknown.
+func unrecoveryMatcher() (kind string, pattern string) {
+	fset := token.NewFileSet()
+	f, err := parser.ParseFile(fset, filepath.Join(repoDir(), "node", "state_machine.go"), nil, 0)
+	if err != nil {
+		return "unknown", ""
+	}
+	kind = "unknown"
+	n := 0
+	for _, d := range f.Decls {
+		fd, ok := d.(*ast.FuncDecl)
+		if !ok || fd.Name.Name != "isUnrecoveryError" || fd.Body == nil {
+			continue
+		}
+		ast.Inspect(fd.Body, func(x ast.Node) bool {
+			c, ok := x.(*ast.CallExpr)
+			if !ok {
+				return true
+			}
+			sel, ok := c.Fun.(*ast.SelectorExpr)
+			if !ok || renderExpr(sel.X) != "strings" || len(c.Args) != 2 {
+				return true
+			}
+			lit, ok := c.Args[1].(*ast.BasicLit)
+			if !ok || lit.Kind != token.STRING {
+				return true
+			}
+			folded := false
+			if in, ok := c.Args[0].(*ast.CallExpr); ok {
+				if s2, ok := in.Fun.(*ast.SelectorExpr); ok && renderExpr(s2.X) == "strings" && (s2.Sel.Name == "ToLower" || s2.Sel.Name == "ToUpper") {
+					folded = true
+				}
+			}
+			n++
+			pattern, _ = strconv.Unquote(lit.Value)
+			switch {
+			case sel.Sel.Name == "HasPrefix" && !folded:
+				kind = "prefix"
+			case sel.Sel.Name == "Contains" && !folded:
+				kind = "contains"
+			case sel.Sel.Name == "Contains" && folded:
+				kind = "containsfold"
+			default:
+				kind = "unknown"
+			}
+			return true
+		})
+	}
+	if n != 1 {
+		return "unknown", pattern
+	}
+	return kind, pattern
+}
+
 func coqStr(s string) string { return "\"" + strings.ReplaceAll(s, "\"", "\"\"") + "\"%gname" }
 
 func coqStrList(l []string) string {
@@ -257,6 +312,26 @@ func consts() {
 			batch = append(batch, n)
 		}
 	}
+	mk, mp := unrecoveryMatcher()
+	fmt.Println("(* node/state_machine.go isUnrecoveryError: the string predicate applied to err.Error() and its literal *)")
+	fmt.Printf("Definition unrecovery_matcher : gname := %s.\n", coqStr(mk))
+	fmt.Printf("Definition unrecovery_pattern : gname := %s.\n", coqStr(mp))
+	fmt.Println("(* texts of the fixed errors the apply handlers return before calling the store (hook node.VerifApplyErrTexts) *)")
+	fmt.Println("Definition apply_err_texts : list (gname * gname) := [")
+	et := node.VerifApplyErrTexts()
+	var etn []string
+	for k := range et {
+		etn = append(etn, k)
+	}
+	sort.Strings(etn)
+	for i, k := range etn {
+		sep := ";"
+		if i == len(etn)-1 {
+			sep = ""
+		}
+		fmt.Printf("  (%s, %s)%s\n", coqStr(k), coqStr(et[k]), sep)
+	}
+	fmt.Println("].")
 	fmt.Println("(* rockredis: sites where errTooMuchBatchSize leaves a function: (function, via callee or \"\", no batch write precedes) *)")
 	fmt.Println("Definition toomuch_sites : list (gname * gname * bool) := [")
 	ts := tooMuchSites()
